@@ -72,7 +72,7 @@ package cmd
 //@   ghost gRet error = nil
 //@   # plain closest only without -n and without -d (any -d, also -d 0, goes through ClosestN with the parsed distance)
 //@   before call:ClosestN#1: assert [c06.options.n] (old(closestN) > 0 || old(closestDist) != "") && arg(0) == old(closestN) && implies(old(closestDist) == "", arg(1) == -1.0) && arg(2) == queryIn && arg(3) == targetIn && arg(4) == measure && arg(5) == closestOut && arg(6) == old(closestTable) && arg(7) == old(closestThreads)
-//@   before call:Closest#1: assert [c06.options] old(closestN) <= 0 && old(closestDist) == "" && arg(0) == queryIn && arg(1) == targetIn && arg(2) == measure && arg(3) == closestOut && arg(4) == old(closestThreads)
+//@   before call:Closest#1: assert [c06.options] old(closestN) <= 0 && dist == -1.0 && arg(0) == queryIn && arg(1) == targetIn && arg(2) == measure && arg(3) == closestOut && arg(4) == old(closestThreads)
 //@   before call:ClosestN#1: assert [c06.measure] measure == "raw" || measure == "snp" || measure == "tn93"
 //@   before call:Closest#1: assert [c06.measure] measure == "raw" || measure == "snp" || measure == "tn93"
 //@   after call:ClosestN#1: do gCalled = true; gRet = ret()
